@@ -727,7 +727,9 @@ class PkgGen:
             if k == 1:
                 i = self.local()
                 return ["for %s := 0; %s < 1; %s++ {" % (i, i, i)] + inner + ["}"]
-            return ["for range []int{} {"] + inner + ["}"]
+            t = self.any_type()
+            e = self.local()
+            return ["for _, %s := range []%s{} {" % (e, t.expr), "\t_ = %s" % e] + inner + ["}"]
         if c == 20:   # local const / type, possibly unused
             lc = "lc%d" % self.uid()
             self.hit("stmt_local_const")
@@ -782,6 +784,16 @@ class PkgGen:
             if k == 1:
                 return ["var %s chan %s" % (ch, t.expr), "select {", "case %s <- %s:" % (ch, t.zero), "default:", "}"]
             e = self.local()
+            ints = [x for x in self.consts if x[1].kind == "int"]
+            if ints and r.chance(1, 2):
+                # the value sent / the deferred argument is the only place that mentions the constant
+                n, _, _ = r.choice(ints)
+                self.hit("stmt_chan_send_const")
+                out = ["var %s chan int" % ch, "select {", "case %s <- %s:" % (ch, n), "default:", "}"]
+                if self.variadics:
+                    n2, _, _ = r.choice(ints)
+                    out.append("defer %s(%s)" % (r.choice(self.variadics), n2))
+                return out
             return ["var %s chan %s" % (ch, t.expr), "select {", "case %s := <-%s:" % (e, ch), "\t_ = %s" % e, "default:", "}"]
         if c == 28:   # switch on a value, labels
             k = r.below(3)
@@ -889,11 +901,13 @@ class PkgGen:
             if n[0].islower() and r.chance(1, 5):
                 lines.append("\t_ = %s" % n)
         only = "to%d" % self.uid()
-        th = "th%d" % self.uid()
-        extra = "func %s() int { return 1 }" % only
+        only2 = "to%d" % self.uid()
+        th = "Th%d" % self.uid()     # exported: used (1.2), so what it mentions is used by the test variant only
+        extra = "func %s() int { return 1 }\n\nfunc %s() int { return 2 }" % (only, only2)
         lines.append("\t_ = %s" % only)
         self.hit("test_file")
-        return extra, "package %s\n\nfunc %s() {\n%s\n}\n\nvar tv%d = %s()\n" % (self.pkg, th, "\n".join(lines), self.uid(), only)
+        return extra, "package %s\n\nfunc %s() {\n%s\n}\n\nvar Tv%d = %s()\n\nfunc th%d() {}\n" % (
+            self.pkg, th, "\n".join(lines), self.uid(), only2, self.uid())
 
 
 IMPORTS = {"utf8.": "unicode/utf8", "bits.": "math/bits"}
@@ -2271,10 +2285,10 @@ def run(ctx):
         t_phase[0] = now
 
     quick = ctx.quick
-    n_gen = 200 if quick else 3000
-    n_frag = 110 if quick else 1500
-    n_bin_gen = 40 if quick else 600       # generated packages that also go through the staticcheck binary
-    n_bin_frag = 24 if quick else 400
+    n_gen = 200 if quick else 2000
+    n_frag = 110 if quick else 1000
+    n_bin_gen = 40 if quick else 300       # generated packages that also go through the staticcheck binary
+    n_bin_frag = 24 if quick else 200
     with ThreadPoolExecutor(max_workers=3) as ex:
         fl = ex.submit(vlib.std_lean_phase, ctx, MODULES, THEOREMS)
         fh = ex.submit(vlib.build_harness, ctx, "c07run")
